@@ -47,8 +47,8 @@ func vValidPrefix(s string) bool {
 
 // vPinnedFindStop selects the model variant the oracle runs for `find`: 1 = FindStop as pinned (first
 // listed stop), 0 = the repaired FindStop of proposed_fixes/C14-F7.patch (earliest occurrence).
-// Flip to 0 (here and in runner_ollamarunner/zz_verif_c14_test.go) when the fix is applied to /repo.
-const vPinnedFindStop = 1
+// vlib/checks/c14.py passes it (PINNED_FINDSTOP); flip it there when the fix is applied to /repo.
+var vPinnedFindStop = zzverif.EnvInt("VERIF_C14_PINNED", 1)
 
 func vFind(out *zzverif.Out, seq string, stops []string) {
 	line := fmt.Sprintf("find %d ", vPinnedFindStop) + zzverif.Hex([]byte(seq)) + " " + vHexList(stops)
